@@ -207,7 +207,7 @@ static int run(const uint8_t *tp_, size_t len, struct vp_report *rep, unsigned f
     /* ---- the byte stream ---- */
     int nel = 1 + tp_u8(&c->t) % 12;
     int unit_bounds[64], nub = 0;     /* for ts_check / agg: element boundaries */
-    for (int e = 0; e < nel && c->slen < MAXSTREAM - 700; e++) {
+    for (int e = 0; e < nel && c->slen < MAXSTREAM - 1400; e++) {   /* the largest element is MTU + 1 = 1317 octets */
         uint8_t sel = tp_u8(&c->t);
         int kind = sel % 8, l;
         uint8_t seed = tp_u8(&c->t);
